@@ -30,6 +30,9 @@ type c10Case struct {
 	Suffix  []string `json:"suffix"` // plaintext lines injected behind STARTTLS in the same segment
 	Probes  []string `json:"probes"` // commands sent inside TLS
 	GateDel bool     `json:"gate_delivery,omitempty"`
+	// LogoutErr: the backend's Logout returns an error (it has nobody to
+	// report it to; nothing may depend on it)
+	LogoutErr bool `json:"logout_err,omitempty"`
 }
 
 func c10Run(c c10Case) Verdict {
@@ -41,6 +44,7 @@ func c10Run(c c10Case) Verdict {
 	if c.GateDel {
 		script.Data = []harness.DataPlan{{Read: harness.ReadPlan{Limit: -1}, Honest: true, GatePost: true}}
 	}
+	script.LogoutErr = c.LogoutErr
 	r := harness.NewRig(cfg, script)
 	w, err := r.Dial()
 	if err != nil {
@@ -101,6 +105,9 @@ func c10Run(c c10Case) Verdict {
 	v := Verdict{NonTrivial: len(c.Suffix) > 0, Classes: []string{"pre_" + c.Pre, "tls_" + c.TLS}}
 	if len(c.Suffix) > 0 {
 		v.Classes = append(v.Classes, "injected_suffix")
+	}
+	if c.LogoutErr {
+		v.Classes = append(v.Classes, "logout_returns_error")
 	}
 	wantAccept := c.TLS == "starttls"
 	if perr != nil || len(rs) < 1 {
@@ -258,6 +265,7 @@ func c10Gen(t *rapid.T) c10Case {
 	c := c10Case{TLS: rapid.SampledFrom([]string{"starttls", "starttls", "starttls", "", "implicit"}).Draw(t, "tls"), LMTP: rapid.IntRange(0, 3).Draw(t, "lmtp") == 0}
 	c.Pre = rapid.SampledFrom([]string{"none", "greeted", "authed", "txn", "bdat"}).Draw(t, "pre")
 	c.GateDel = c.Pre == "bdat" && rapid.Bool().Draw(t, "gate")
+	c.LogoutErr = rapid.IntRange(0, 2).Draw(t, "logout_err") == 0
 	inj := []string{"MAIL FROM:<inj@x>", "RCPT TO:<inj@x>", "EHLO inj", "LHLO inj", "DATA", "inj body", ".", "NOOP", "AUTH PLAIN AGluagBwdw==", "RSET", "QUIT", "STARTTLS", "BDAT 3 LAST", "inj"}
 	for i, n := 0, rapid.IntRange(0, 5).Draw(t, "nsfx"); i < n; i++ {
 		c.Suffix = append(c.Suffix, rapid.SampledFrom(inj).Draw(t, "sfx"))
@@ -390,6 +398,9 @@ func (fs *fakeServer) serveTLS(tc *tls.Conn) {
 			io.WriteString(tc, "502 5.5.1 EHLO not implemented\r\n")
 		case strings.HasPrefix(verb, "HELO"):
 			io.WriteString(tc, "250 fake\r\n")
+		case strings.HasPrefix(verb, "EHLO") && fs.mode == "tlsbare":
+			// inside TLS the EHLO reply is the greeting line alone: no extensions
+			io.WriteString(tc, "250 fake\r\n")
 		case strings.HasPrefix(verb, "EHLO"):
 			io.WriteString(tc, "250-fake\r\n250-XTLSONLY\r\n250-AUTH PLAIN\r\n250 8BITMIME\r\n")
 		case strings.HasPrefix(verb, "AUTH"):
@@ -505,7 +516,8 @@ func c10ClientRun(c c10ClientCase) Verdict {
 			return failf("plaintext-leak", "server %q, entry %s: the client wrote %q outside TLS; plaintext octets received: %s", c.Server, c.Entry, s, q(plain))
 		}
 	}
-	success := c.Server == "ok" || c.Server == "injected" || c.Server == "tlshelo"
+	bare := c.Server == "tlshelo" || c.Server == "tlsbare" // nothing is offered inside TLS
+	success := c.Server == "ok" || c.Server == "injected" || bare
 	if !success {
 		if callErr == nil {
 			return failf("no-error", "server %q: STARTTLS did not succeed but the client call returned nil", c.Server)
@@ -515,7 +527,7 @@ func c10ClientRun(c c10ClientCase) Verdict {
 		}
 		return v
 	}
-	if c.Server == "tlshelo" && c.Entry == "sendmail-auth" {
+	if bare && c.Entry == "sendmail-auth" {
 		// the TLS side offers no AUTH: SendMail has to give up, and must not have sent credentials
 		if callErr == nil {
 			return failf("stale-capabilities", "SendMail with credentials succeeded although the TLS side offers no AUTH; commands inside TLS: %q", cmds)
@@ -535,16 +547,17 @@ func c10ClientRun(c c10ClientCase) Verdict {
 		return failf("no-ehlo-after-upgrade", "first command inside TLS is %q, want a new EHLO", cmds)
 	}
 	joined := strings.Join(cmds, "\n")
-	if c.Server == "tlshelo" {
-		// inside TLS nothing was offered (HELO): nothing learned in plaintext may be used
+	if bare {
+		// inside TLS nothing was offered (HELO only, or an EHLO reply without
+		// extension lines): nothing learned in plaintext may be used
 		for _, l := range cmds {
 			u := strings.ToUpper(l)
 			if strings.HasPrefix(u, "AUTH") || (strings.HasPrefix(u, "MAIL FROM") && strings.Contains(u, "BODY=")) {
-				return failf("stale-capabilities", "inside TLS the server only accepted HELO (no extensions), but the client sent %q - a capability it only learned in plaintext", l)
+				return failf("stale-capabilities", "inside TLS the server offered no extensions, but the client sent %q - a capability it only learned in plaintext", l)
 			}
 		}
 		if (c.Entry == "newclient" || c.Entry == "dial") && (extPlain || extTLS) {
-			return failf("stale-capabilities", "after a HELO fallback inside TLS Extension() still reports capabilities (XPLAIN=%v)", extPlain)
+			return failf("stale-capabilities", "server %q offers nothing inside TLS, yet Extension() still reports capabilities (XPLAIN=%v)", c.Server, extPlain)
 		}
 		return v
 	}
@@ -576,13 +589,13 @@ func init() {
 
 func TestC10(t *testing.T) {
 	registerAll()
-	st.Rule = "server: cases = (TLS none/available/active, SMTP/LMTP, pre-STARTTLS state none|greeted|authenticated|mid-transaction|mid-BDAT (optionally with a gated delivery), plaintext lines injected behind STARTTLS in the same segment, probe commands inside TLS); client: cases = (scripted server nostarttls|454|502|220+garbage|220+injected replies|ok) x (NewClientStartTLS over memnet, DialStartTLS and package-level SendMail with/without SASL over 127.0.0.1); non-trivial = non-empty injected suffix or a misbehaving server script; distinct = hash of the whole case"
+	st.Rule = "server: cases = (TLS none/available/active, SMTP/LMTP, pre-STARTTLS state none|greeted|authenticated|mid-transaction|mid-BDAT (optionally with a gated delivery), plaintext lines injected behind STARTTLS in the same segment, probe commands inside TLS); client: cases = (scripted server nostarttls|454|502|220+garbage|220+injected replies|ok|HELO-only inside TLS|EHLO without extensions inside TLS) x (NewClientStartTLS over memnet, DialStartTLS and package-level SendMail with/without SASL over 127.0.0.1); non-trivial = non-empty injected suffix or a misbehaving server script; distinct = hash of the whole case"
 	if !regress(t, "C10") {
 		return
 	}
 	// the client half is a small finite product: enumerate it completely
 	idx := 0
-	for _, srv := range []string{"nostarttls", "refuse454", "refuse502", "garbage", "injected", "ok", "tlshelo"} {
+	for _, srv := range []string{"nostarttls", "refuse454", "refuse502", "garbage", "injected", "ok", "tlshelo", "tlsbare"} {
 		for _, entry := range []string{"newclient", "dial", "sendmail", "sendmail-auth"} {
 			idx++
 			if !mine(idx) {
